@@ -181,7 +181,14 @@ public:
             entries = 1u << this->_info._bits_per_pixel;
         }
 
-        _palette.resize( entries, rgba8_pixel_t(0, 0, 0, 0));
+        // a pixel can hold every index below 1 << bits_per_pixel, whatever number of colors the header declares
+        std::size_t palette_size = static_cast< std::size_t >( entries );
+        if( palette_size < ( std::size_t( 1 ) << this->_info._bits_per_pixel ))
+        {
+            palette_size = std::size_t( 1 ) << this->_info._bits_per_pixel;
+        }
+
+        _palette.resize( palette_size, rgba8_pixel_t(0, 0, 0, 0));
 
 		for( int i = 0; i < entries; ++i )
         {
